@@ -155,6 +155,7 @@ func loopBounds(in ssa.Instruction, s *Symer) []string {
 }
 
 func runC21(c *Ctx) {
+	c21SPIAccessors(c)
 	sp := "pkg/spao."
 	if v := c.View(sp + "serializeAuthenticatedData"); v != nil {
 		ents := ExtractLayout(v.Fn, v.S)
